@@ -228,10 +228,19 @@ func (r *TrzszRelay) flushHandshakeBuffer(confirm bool) {
 	r.bufferLock.Lock()
 	defer r.bufferLock.Unlock()
 
+	// the end of the transfer may already be among the chunks parked during the handshake
+	transferEnded := false
+	isEndOfTransfer := func(buf []byte) bool {
+		return bytes.Contains(buf, []byte("#EXIT:")) || bytes.Contains(buf, []byte("#FAIL:")) || bytes.Contains(buf, []byte("#fail:"))
+	}
+
 	for {
 		buf := r.stdinBuffer.popBuffer()
 		if buf == nil {
 			break
+		}
+		if isEndOfTransfer(buf) {
+			transferEnded = true
 		}
 		if t := r.tunnelRelay.Load(); t != nil && r.tunnelConnected.Load() {
 			t.clientBufChan <- buf
@@ -244,6 +253,9 @@ func (r *TrzszRelay) flushHandshakeBuffer(confirm bool) {
 		buf := r.stdoutBuffer.popBuffer()
 		if buf == nil {
 			break
+		}
+		if isEndOfTransfer(buf) {
+			transferEnded = true
 		}
 		if t := r.tunnelRelay.Load(); t != nil && r.tunnelConnected.Load() {
 			t.serverBufChan <- buf
@@ -258,6 +270,9 @@ func (r *TrzszRelay) flushHandshakeBuffer(confirm bool) {
 
 	if confirm {
 		r.relayStatus.Store(kRelayTransferring)
+		if transferEnded {
+			r.resetToStandby(kRelayTransferring)
+		}
 	} else {
 		r.resetToStandby(kRelayHandshaking)
 	}
